@@ -132,10 +132,14 @@ theorem minv_chGetDifference {O log keys org start} (hO : GoodOrders O) (hS : Sc
         (by rw [hlog, h1.c0 c hk]; exact fun e he hk' => (hS.above _ hk e he hk').1) b.state
       dsimp only at honest
       rw [hlog] at honest
-      rcases chanDiff_cases m1.w c b.state with hans | ⟨p, hans⟩ | ⟨hans, hcand⟩ | hans
+      rcases chanDiff_cases m1.w c b.state with hans | hans | ⟨p, hans⟩ | ⟨hans, hcand⟩ | hans
       · -- a transient error
         rw [hans]
         simpa using h2
+      · -- CHANNEL_PRIVATE: the callback, the channel is forgotten
+        rw [hans]
+        simp only
+        exact minv_removeChan (minv_emit_neutral h2 _ (neutral_inaccessible log keys c)) c
       · -- too long
         rw [hans]
         simp only
